@@ -31,6 +31,20 @@ pub(crate) struct RunningInfo {
     pub(crate) task: Task,
 }
 
+/// Removes the task from the set of running tasks when dropped, i.e. also when the task ends by a panic.
+pub(crate) struct RunningGuard {
+    pub(crate) app_state: actix_web::web::Data<AppState>,
+    pub(crate) running_info: RunningInfo,
+}
+
+impl Drop for RunningGuard {
+    fn drop(&mut self) {
+        if let Ok(mut running) = self.app_state.currently_running.lock() {
+            running.remove(&self.running_info);
+        }
+    }
+}
+
 pub(crate) struct AppState {
     pub(crate) mongodb_client: Client,
     pub(crate) currently_running: Mutex<HashSet<RunningInfo>>,
